@@ -6,6 +6,14 @@ Implementation: `pypyr.config.config.init()` in a FRESH SUBPROCESS per configura
 environment; observed: error type/kind, every writable prop after the call (also after a
 failing call), skip_init, config_loaded_paths, the handle_path call sequence.
 
+Besides the one-call configurations there are HISTORIES (`history_cases`): one process imports pypyr (the
+module singleton is built), then the environment is changed, further `Config()` objects are built, `init()` is
+called - on the singleton and on the new objects, once or several times - with the environment changed in
+between. Model: `config.session` (`Op`, `runOps`, `initOn`). Every step is observed (settings, loaded paths,
+handle_path calls, files opened below the scratch root through an audit hook, os.environ as the child saw it).
+Monitor: every `init()` is judged against the environment AT THE MOMENT IT RUNS and the settings the object had
+just before the call; a fresh `Config()` against the documented defaults.
+
 Two judgements per case:
   * correspondence: model observation == implementation observation (res.mismatch);
   * monitor (`judge`): written from the property text alone, no Lean model involved — who must
@@ -22,7 +30,9 @@ from ..common import canon
 
 LEAN_MODULES = ['Props.C20']
 TRUSTED = ['harness/props/c20.py (layout/assignment generators, yaml+toml renderers, monitor)',
-           'harness/impl_c20.py + impl_c20_child.py (scratch tree, subprocess, handle_path recorder)',
+           'harness/impl_c20.py + impl_c20_child.py (scratch tree, subprocess, script of env changes / Config() / init() '
+           'steps, handle_path recorder, audit hook recording opened files); the harness\'s book-keeping of the '
+           'environment per step is cross-checked against os.environ as seen by the child',
            'harness/extract_c20.py (ast -> Generated/ConfigProps.lean)',
            'ruamel.yaml / tomllib parse the rendered files to the payload the case declares '
            '(validated by the correspondence itself)']
@@ -426,16 +436,126 @@ def random_case(rng, res, i):
     return build_case(f'random:{i}', env, spec, contents, rng)
 
 
+# --------------------------------------------------------------------------
+# histories: import, change the environment, Config(), init(), change it again, init() again ...
+# --------------------------------------------------------------------------
+
+def history_case(rng, res, tag, start, steps):
+    """start: (env, spec) the process starts (= pypyr is imported, the singleton built) with;
+    steps: ('env', (env, spec)) | ('new', k) | ('init', k). One file set for the whole history: every file any
+    of the environments names gets an assignment whose values name the file."""
+    layouts = [start] + [x for kind, x in steps if kind == 'env']
+    present = []
+    for _env, spec in layouts:
+        for p in spec['order'] + spec['ignored']:
+            if p not in present and not p.startswith('/etc') and p != '.':
+                present.append(p)
+    missing = {sp['global'] for _e, sp in layouts if sp.get('global_missing')}
+    present = [p for p in present if p not in missing]
+    contents = assign(rng, present, res)
+    case = build_case(tag, start[0], start[1], contents, rng)
+    script = []
+    for kind, x in steps:
+        if kind == 'env':
+            script.append({'op': 'env', 'env': x[0], 'spec': x[1]})
+        else:
+            script.append({'op': kind, 'obj': x})
+    case['script'] = script
+    return case
+
+
+def L(**kw):
+    missing = kw.pop('global_missing', False)
+    env, spec = layout(**kw)
+    if missing:
+        spec['global_missing'] = True
+    return env, spec
+
+
+def history_cases(rng, res, quick):
+    out = []
+
+    def add(tag, start, steps):
+        out.append(history_case(rng, res, 'history:' + tag, start, steps))
+    plain = lambda: L()
+    # 1. $PYPYR_SKIP_INIT set AFTER import (singleton) / after construction (a new object), several spellings
+    for v in ('1', 'true', 'TRUE', '1.0'):
+        add(f'skip-set-after-import:{v}', plain(), [('env', L(skip=v)), ('init', 0)])
+    add('skip-set-after-new', plain(), [('new', 1), ('env', L(skip='1')), ('init', 1)])
+    add('skip-set-before-new-kept', plain(), [('env', L(skip='true')), ('new', 1), ('init', 1), ('init', 0)])
+    # 2. ... and removed / made falsy after import: everything is looked up
+    for v in ('1', 'TRUE'):
+        add(f'skip-unset-after-import:{v}', L(skip=v), [('env', plain()), ('init', 0)])
+    add('skip-falsy-after-import', L(skip='1'), [('env', L(skip='0')), ('init', 0)])
+    add('skip-unset-after-new', L(skip='1'), [('new', 1), ('env', plain()), ('init', 1), ('init', 0)])
+    add('skip-only-while-new', plain(), [('env', L(skip='1')), ('new', 1), ('env', plain()), ('init', 1)])
+    # 3. the same object initialised twice: skip then not, not then skip, twice plain
+    add('init-skip-then-plain', plain(), [('env', L(skip='1')), ('init', 0), ('env', plain()), ('init', 0)])
+    add('init-plain-then-skip', plain(), [('init', 0), ('env', L(skip='1')), ('init', 0)])
+    add('init-twice', plain(), [('init', 0), ('init', 0)])
+    add('init-twice-new', plain(), [('new', 1), ('init', 1), ('env', L(commons=('c3',), user='xh2')), ('init', 1)])
+    add('init-twice-dirs-changed', plain(), [('init', 0), ('env', L(commons=('c3', 'c1'), user='xh2')), ('init', 0)])
+    add('init-two-objects-dirs-changed', plain(), [('new', 1), ('new', 2), ('init', 1), ('env', L(commons=('c2',), user=None)), ('init', 2)])
+    add('init-global-then-dirs', L(glob='g.yaml'), [('init', 0), ('env', L(commons=('c2', 'c3'))), ('new', 1), ('init', 1), ('init', 0)])
+    add('init-local-then-default', L(local='alt.yaml'), [('new', 1), ('init', 1), ('env', plain()), ('init', 1)])
+    # 4. $PYPYR_CONFIG_GLOBAL set / removed / pointed elsewhere / at a missing file after import
+    add('global-set-after-import', plain(), [('env', L(glob='g.yaml')), ('init', 0)])
+    add('global-set-after-new', plain(), [('new', 1), ('env', L(glob='g.yaml')), ('init', 1), ('env', plain()), ('init', 0)])
+    add('global-unset-after-import', L(glob='g.yaml'), [('env', plain()), ('init', 0)])
+    add('global-changed-after-import', L(glob='g.yaml'), [('env', L(glob='g2.yaml')), ('init', 0)])
+    add('global-missing-after-import', plain(), [('env', L(glob='missing.yaml', global_missing=True)), ('init', 0)])
+    add('global-missing-then-unset', L(glob='missing.yaml', global_missing=True), [('env', plain()), ('init', 0)])
+    # 5. $PYPYR_CONFIG_LOCAL, $XDG_CONFIG_DIRS, $XDG_CONFIG_HOME changed after import
+    add('local-set-after-import', plain(), [('env', L(local='alt.yaml')), ('init', 0)])
+    add('local-unset-after-import', L(local='alt.yaml'), [('env', plain()), ('init', 0)])
+    add('dirs-changed-after-import', L(commons=('c1', 'c2')), [('env', L(commons=('c3', 'c1'))), ('init', 0)])
+    add('dirs-reordered-after-import', L(commons=('c1', 'c2')), [('env', L(commons=('c2', 'c1'))), ('new', 1), ('init', 1), ('init', 0)])
+    add('home-changed-after-import', L(user='xh'), [('env', L(user='xh2')), ('init', 0)])
+    add('home-unset-after-import', L(user='xh'), [('env', L(user=None)), ('init', 0)])
+    # 6. the env-derived defaults belong to the construction: $PYPYR_NO_CACHE / ENCODING changed around it
+    add('nocache-set-after-import', plain(), [('env', L(extra={'PYPYR_NO_CACHE': '1'})), ('new', 1), ('init', 1), ('init', 0)])
+    add('nocache-unset-after-import', L(extra={'PYPYR_NO_CACHE': 'true', 'PYPYR_ENCODING': 'ascii'}),
+        [('env', plain()), ('new', 1), ('init', 0), ('init', 1)])
+    add('encoding-set-between-new-and-init', plain(),
+        [('new', 1), ('env', L(extra={'PYPYR_CMD_ENCODING': 'latin-1', 'PYPYR_NO_CACHE': '1'})), ('init', 1), ('new', 2), ('init', 2)])
+    # 7. several objects, environments interleaved
+    add('interleaved', plain(), [('new', 1), ('new', 2), ('env', L(glob='g.yaml')), ('init', 1), ('env', L(skip='1')), ('init', 2),
+                                 ('env', L(local='alt.yaml', commons=('c2',))), ('init', 0), ('init', 2)])
+    # random histories
+    pool = [lambda: L(), lambda: L(skip='1'), lambda: L(skip='true'), lambda: L(skip='0'), lambda: L(glob='g.yaml'),
+            lambda: L(glob='g2.yaml'), lambda: L(local='alt.yaml'), lambda: L(commons=('c2', 'c3')),
+            lambda: L(commons=('c1',), user='xh2'), lambda: L(user=None), lambda: L(extra={'PYPYR_NO_CACHE': '1'}),
+            lambda: L(skip='1', glob='missing.yaml', global_missing=True),
+            lambda: L(extra={'PYPYR_ENCODING': 'utf-8'}, skip='TRUE')]
+    for i in range(20 if quick else 400):
+        start = rng.choice(pool)()
+        steps, objs = [], [0]
+        for _ in range(rng.randint(2, 7)):
+            r = rng.random()
+            if r < 0.4:
+                steps.append(('env', rng.choice(pool)()))
+            elif r < 0.55 and len(objs) < 3:
+                objs.append(len(objs))
+                steps.append(('new', objs[-1]))
+            else:
+                steps.append(('init', rng.choice(objs)))
+        if not any(k == 'init' for k, _ in steps):
+            steps.append(('init', 0))
+        add(f'random:{i}', start, steps)
+    return out
+
+
 def all_cases(env, res):
     rng = env.rng
     cases = subset_cases(rng, res, False) + subset_cases(rng, res, True)
     cases += malformed_cases(rng, res, env.quick)
     cases += env_cases(rng, res, env.quick)
+    hist = history_cases(rng, res, env.quick)
     n_random = env.n(max(0, 160 - len(cases)), max(0, 3000 - len(cases) - 64))
     if not env.quick:   # a second, differently assigned pass over the subsets
         cases += subset_cases(rng, res, False) + subset_cases(rng, res, True)
     cases += [random_case(rng, res, i) for i in range(n_random)]
-    return cases
+    return cases + hist
 
 
 # --------------------------------------------------------------------------
@@ -448,6 +568,31 @@ def model_request(case):
         'env': {'vars': [[k, v] for k, v in env.items() if k != 'HOME'], 'home': env.get('HOME', f'{S}/home'),
                 'platform': 'posix'},
         'files': [[f['path'], f['payload']] for f in case['files']]})
+
+
+def env_vars(env):
+    return [[k, v] for k, v in env.items() if k != 'HOME']
+
+
+def history_envs(case):
+    """[(op, obj, env at that moment)] for the import and every new / init step: the harness's own book-keeping
+    of the environment (cross-checked against what the child saw in os.environ at each step)."""
+    cur = case['env']
+    out = [('new', 0, cur, case['spec'])]
+    spec = case['spec']
+    for op in case['script']:
+        if op['op'] == 'env':
+            cur, spec = {**op['env'], 'HOME': case['env'].get('HOME', f'{S}/home')}, op['spec']
+        else:
+            out.append((op['op'], op['obj'], cur, spec))
+    return out
+
+
+def history_request(case):
+    return ('config.session', {
+        'home': case['env'].get('HOME', f'{S}/home'), 'platform': 'posix',
+        'files': [[f['path'], f['payload']] for f in case['files']],
+        'ops': [{'op': op, 'obj': obj, 'vars': env_vars(env)} for op, obj, env, _spec in history_envs(case)]})
 
 
 def sort_dicts(w):
@@ -510,23 +655,44 @@ def dec(w):
 
 
 def judge(case, obs):
-    """-> None (holds / no opinion) or (detail, signature)."""
-    spec = case['spec']
-    env = case['env']
+    """The one-step history: `init()` on the singleton in the environment the process started with."""
     if 'crash' in obs:
         return None
-    files = {f['path']: f['payload'] for f in case['files']}
-    defaults = spec_defaults(env)
+    return judge_init(case['spec'], case['files'], spec_defaults(case['env']), obs, 'default')
+
+
+def under_root(p):
+    """The file a path handed to open() denotes, in the vocabulary of the case ('@S/...' or cwd-relative)."""
+    if p.startswith(S + '/cwd/'):
+        return p[len(S + '/cwd/'):]
+    return p
+
+
+def judge_init(spec, case_files, base, obs, base_name):
+    """One `init()` call, judged from the property text. spec: what the environment *at the moment of the
+    call* prescribes (skip / global / order / ignored); base: the settings of the object before the call
+    (the defaults, for a fresh object); obs: what the object shows afterwards.
+    -> None (holds / no opinion) or (detail, signature)."""
+    files = {f['path']: f['payload'] for f in case_files}
+    defaults = base
     got = {k: dec(v) for k, v in obs['props'].items()}
     err = obs['err']
+    opened = [under_root(p) for p in (obs.get('opened') or [])]
     if spec['skip']:
         if err is not None:
             return (f"$PYPYR_SKIP_INIT set but init raised {err['type']}", {'clause': 'skip_init_skips_all', 'how': 'raised'})
         for k, v in defaults.items():
             if got.get(k) != v:
-                return (f'$PYPYR_SKIP_INIT set but {k} = {got.get(k)!r} (default {v!r}): a file was looked up',
+                return (f'$PYPYR_SKIP_INIT set but {k} = {got.get(k)!r} ({base_name} {v!r}): a file was looked up',
                         {'clause': 'skip_init_skips_all', 'how': 'file-applied'})
+        if opened or obs.get('calls'):
+            return (f"$PYPYR_SKIP_INIT set but init looked files up: opened {opened}, handle_path calls {obs.get('calls')}",
+                    {'clause': 'skip_init_skips_all', 'how': 'file-looked-up'})
         return None
+    # nothing outside the prescribed locations is looked at ($PYPYR_CONFIG_GLOBAL replaces common + user)
+    stray = [p for p in opened if p in spec['ignored'] and p not in spec['order']]
+    if stray:
+        return (f'init opened {stray}, which $PYPYR_CONFIG_GLOBAL replaces', {'clause': 'global_replaces_common_and_user', 'kind': 'opened'})
     order = list(spec['order'])
     # anything that must be rejected with a config error
     must_reject = None
@@ -565,7 +731,7 @@ def judge(case, obs):
     maps = [(p, dict((k, v) for k, v in files[p]['kvs'])) for p in order
             if p in files and files[p]['kind'] == 'map']
     for k in SCALARS:
-        want, src = defaults[k], 'default'
+        want, src = defaults[k], base_name
         for p, m in maps:
             if k in m:
                 want, src = dec(m[k]), p
@@ -578,10 +744,18 @@ def judge(case, obs):
                 if ign:
                     return (f'{k} = {got.get(k)!r} comes from {ign[0]}, which $PYPYR_CONFIG_GLOBAL replaces',
                             {'clause': 'global_replaces_common_and_user', 'kind': 'scalar'})
+            if who is None and got.get(k) != defaults.get(k):
+                # no consulted file sets it: whose value is it? a file that should not have been looked at
+                other = [f for f, pl in files.items() if pl['kind'] == 'map' and f not in dict(maps)
+                         and any(kk == k and dec(vv) == got.get(k) for kk, vv in pl['kvs'])]
+                if other:
+                    return (f'{k} = {got.get(k)!r} comes from {other[0]}, which the environment at the moment of init() '
+                            f'does not name (look-ups prescribed: {spec["order"]})',
+                            {'clause': 'init_obeys_environment_at_call_time', 'kind': 'scalar'})
             return (f'{k} = {got.get(k)!r}; highest-precedence setter is {src} with {want!r} (setters low->high: {setters}; '
                     f'value seen is from {who})', {'clause': 'scalar_highest_wins', 'winner': kind_of(who, spec), 'should': kind_of(src, spec)})
     for name in DICTS:
-        want = {}
+        want = dict(defaults.get(name) or {})
         srcs = {}
         for p, m in maps:
             if name in m:
@@ -597,16 +771,16 @@ def judge(case, obs):
                         {'clause': 'global_replaces_common_and_user' if spec['ignored'] else 'dict_union_precedence',
                          'kind': 'dict', 'how': 'extra-keys'})
             if missing:
-                return (f'{name} lacks keys {missing} set by {[srcs[k] for k in missing]}: not a key-wise union',
+                return (f'{name} lacks keys {missing} set by {[srcs.get(k, base_name) for k in missing]}: not a key-wise union',
                         {'clause': 'dict_union_precedence', 'how': 'missing-keys'})
             bad = next(k for k in want if g[k] != want[k])
-            return (f'{name}[{bad!r}] = {g[bad]!r}; highest-precedence file with that key is {srcs[bad]} with {want[bad]!r}',
+            return (f'{name}[{bad!r}] = {g[bad]!r}; highest-precedence source of that key is {srcs.get(bad, base_name)} with {want[bad]!r}',
                     {'clause': 'dict_union_precedence', 'how': 'wrong-winner'})
     return None
 
 
 def kind_of(path, spec):
-    if path is None or path == 'default':
+    if path is None or path in ('default', 'previous'):
         return str(path)
     if path == 'pyproject.toml':
         return 'pyproject'
@@ -626,23 +800,38 @@ def kind_of(path, spec):
 # --------------------------------------------------------------------------
 
 def is_nontrivial(case):
-    return bool(case['files']) or bool(case['spec'].get('global'))
+    return bool(case['files']) or bool(case['spec'].get('global')) or bool(case.get('script'))
 
 
 def evaluate(env, res, cases):
     repo = str(common.REPO)
     impl = impl_c20.run_many(cases, repo)
-    models = env.driver.ask_many([model_request(c) for c in cases])
+    models = env.driver.ask_many([history_request(c) if c.get('script') is not None else model_request(c) for c in cases])
     for case, io, mo in zip(cases, impl, models):
         res.count('stream:' + case['tag'].split(':')[0])
         if isinstance(mo, common.Reject):
             res.count('rejected-by-model')
-            res.mismatch(case, {'reject': str(mo)}, norm_impl(io), 'the generator produced a case outside the modelled domain')
+            res.mismatch(case, {'reject': str(mo)}, io if 'steps' not in io else [norm_impl(x) for x in io['steps']],
+                         'the generator produced a case outside the modelled domain')
+            continue
+        if 'hang' in io:
+            res.case(case, nontrivial=True)
+            res.violation(case, f"the process that imports pypyr.config and calls init() had not finished after "
+                          f"{io['hang']['after_s']} s (killed)", signature={'clause': 'init-never-returned'}, impl=io)
+            res.mismatch(case, 'returns', io)
             continue
         if 'crash' in io:
+            if io['crash'].get('in_tree_under_test'):
+                # an exception the harness does not classify, out of the tree under test: the correspondence is broken
+                res.case(case, nontrivial=True)
+                res.mismatch(case, 'an observation', io, 'the child died inside the tree under test')
+                continue
             raise common.Infra(f"C20 child process failed on {case['tag']}: {io['crash']}")
         res.case(case, nontrivial=is_nontrivial(case))
-        m, i = norm_model(mo), norm_impl(io)
+        if case.get('script') is not None:
+            evaluate_history(res, case, io['steps'], mo)
+            continue
+        m, i = norm_model(mo), norm_impl(io['steps'][-1])
         if 'calls' not in i:
             m.pop('calls')
             res.count('calls-not-observable')
@@ -650,7 +839,7 @@ def evaluate(env, res, cases):
                                 ('skipped' if i['skip_init'] else 'ok')))
         res.count(f"files_present:{len(case['files'])}")
         res.count(f"files_loaded:{len(i['loaded'])}")
-        verdict = judge(case, i)
+        verdict = judge(case, {**i, 'opened': io['steps'][-1].get('opened')})
         if verdict is not None:
             detail, sig = verdict
             res.violation(case, detail, signature=sig, impl=i)
@@ -662,6 +851,63 @@ def evaluate(env, res, cases):
                 res.mismatch(case, m, i, 'differs in: ' + ', '.join(diff))
 
 
+def evaluate_history(res, case, steps, mo):
+    """A history: every step is compared with the model's step and every init() is judged, from the property
+    text, against the environment of the moment it ran and the settings the object had just before."""
+    plan = history_envs(case)
+    res.count(f'history_steps:{len(plan)}')
+    if len(steps) != len(plan) or len(mo) != len(plan):
+        res.mismatch(case, f'{len(plan)} steps', f'{len(steps)} observed / {len(mo)} modelled')
+        return
+    last = {}           # obj -> settings after its latest step (python values)
+    first_bad = None
+    for n, ((op, obj, envn, spec), so, ms) in enumerate(zip(plan, steps, mo)):
+        seen = {k: v for k, v in so['env_seen'].items()}
+        want_env = {k: v for k, v in envn.items() if k != 'HOME'}
+        if seen != want_env:
+            raise common.Infra(f"C20 {case['tag']} step {n}: child saw environment {seen}, harness meant {want_env}")
+        i = norm_impl(so)
+        if op == 'new':
+            res.count('history:new' if n else 'history:import')
+            m = norm_model(ms)
+            m.pop('calls')
+            i.pop('calls', None)
+            got = {k: dec(v) for k, v in i['props'].items()}
+            verdict = None
+            if i['err'] is None and got != spec_defaults(envn) and first_bad is None:
+                k = next(k for k in spec_defaults(envn) if got.get(k) != spec_defaults(envn)[k])
+                verdict = (f'step {n}: a fresh Config() has {k} = {got.get(k)!r}, default {spec_defaults(envn)[k]!r}',
+                           {'clause': 'defaults', 'step': 'new'})
+        else:
+            m = norm_model(ms)
+            if 'calls' not in i:
+                m.pop('calls')
+            kind = ('skip' if spec['skip'] else 'look') + ('-again' if obj in last and last[obj][1] else '')
+            res.count('history:init:' + kind)
+            res.count('history:init:' + ('singleton' if obj == 0 else 'new-object'))
+            base, inited = last.get(obj, (None, False))
+            verdict = None
+            if base is not None and first_bad is None:
+                verdict = judge_init(spec, case['files'], base, {**i, 'opened': so.get('opened')},
+                                     'previous' if inited else 'default')
+                if verdict is not None:
+                    d, sig = verdict
+                    hist = [f"{o}({k})" + ('' if o == 'new' else f"[skip={sp['skip']}, global={sp['global']}]")
+                            for (o, k, _e, sp) in plan[:n + 1]]
+                    verdict = (f"step {n} ({op} on object {obj} after {' -> '.join(hist)}): {d}",
+                               {**sig, 'step': 'init-' + ('singleton' if obj == 0 else 'new-object'),
+                                'env_changed_since_import': envn != case['env']})
+        if i['err'] is None or op == 'init':
+            last[obj] = ({k: dec(v) for k, v in i['props'].items()}, op == 'init')
+        if verdict is not None and first_bad is None:
+            first_bad = n
+            res.violation(case, verdict[0], signature=verdict[1], impl={'step': n, **i})
+        if canon(m) != canon(i) and first_bad is None:
+            first_bad = n
+            diff = [k for k in m if canon(m[k]) != canon(i.get(k))]
+            res.mismatch(case, {'step': n, **m}, {'step': n, **i}, f'step {n} ({op} {obj}) differs in: ' + ', '.join(diff))
+
+
 def run(env, res):
     res.rule = ('fresh subprocess per configuration. Directed: all 2^5 subsets of {common#1, common#2, user, '
                 'pyproject[tool.pypyr], local} existing x $PYPYR_CONFIG_GLOBAL unset / set+existing, each with a '
@@ -670,7 +916,12 @@ def run(env, res):
                 'wrong case / non-str key, empty file, {}) at every location; env spellings of PYPYR_SKIP_INIT, '
                 'PYPYR_CONFIG_GLOBAL (missing, directory, empty), XDG_CONFIG_DIRS (1-3 dirs, blank entries, duplicates, '
                 'default), XDG_CONFIG_HOME (unset/blank), PYPYR_CONFIG_LOCAL, PYPYR_NO_CACHE/ENCODING/CMD_ENCODING; then '
-                'random layouts. Non-trivial = at least one config file exists or $PYPYR_CONFIG_GLOBAL is set.')
+                'random layouts. Histories in ONE process: import (singleton built), then changes of PYPYR_SKIP_INIT '
+                '(set / unset / falsy, several spellings), PYPYR_CONFIG_GLOBAL (set, unset, changed, missing), '
+                'PYPYR_CONFIG_LOCAL, XDG_CONFIG_DIRS / HOME, PYPYR_NO_CACHE / ENCODING after the import, between Config() '
+                'and init(), and between two init() calls on the same object or on different objects; then random '
+                'histories of 2-7 steps over 1-3 objects. Non-trivial = at least one config file exists, '
+                '$PYPYR_CONFIG_GLOBAL is set, or the case is a history.')
     cases = all_cases(env, res)
     evaluate(env, res, cases)
 
